@@ -25,7 +25,8 @@ use rand::Rng;
 #[cfg(not(similari_verif))]
 use std::sync::{Arc, RwLock, RwLockReadGuard, RwLockWriteGuard};
 #[cfg(similari_verif)]
-use similari_verif_rt::sync::{Arc, RwLock, RwLockReadGuard, RwLockWriteGuard};
+#[allow(unused_imports)]
+use similari_verif_rt::sync::*;
 
 // /// Easy to use Visual SORT tracker implementation
 // ///
